@@ -542,9 +542,18 @@ func (n *Network) CrashNode(nc *rt.NodeCtx, notify bool) {
 			c.reset()
 		}
 	}
-	for _, l := range n.Listeners {
+	// the dead process accepts nothing any more; its own Accept keeps blocking
+	// until its shutdown path closes the listener
+	for addr, l := range n.Listeners {
 		if l.NC == nc {
-			_ = l.CloseNow()
+			delete(n.Listeners, addr)
+			for _, c := range l.queue {
+				c.reset()
+				if c.Peer != nil && notify {
+					c.Peer.reset()
+				}
+			}
+			l.queue = nil
 		}
 	}
 }
